@@ -131,24 +131,48 @@ theorem CInv.openStream {c : FcConn} (inv : CInv c) (id body : Nat) (inc : Bool)
 theorem CInv.applyInitialWindow {c : FcConn} (inv : CInv c) (v : Nat) :
     CInv (applyInitialWindow c v).1 := by
   unfold LtVerif.applyInitialWindow
-  by_cases h : (v : Int) > int32Max
-  · simp only [h, if_true]; exact ⟨inv.conn, inv.init, inv.streams⟩
-  · simp only [h, if_false]
-    refine ⟨inv.conn, rfl, ?_⟩
-    intro s hs
-    simp only [List.map_map, List.mem_map, Function.comp] at hs
-    obtain ⟨s0, hs0, rfl⟩ := hs
-    have h0 := inv.streams s0 hs0
-    by_cases ha : s0.st = .halfClosedLocal ∨ s0.st = .closed
-    · simp only [ha, if_true]; exact h0
-    · simp only [ha, if_false]
-      by_cases hov : winOverflows s0.swin ((v : Int) - c.initWin) = true
-      · simp only [hov, if_true]; exact h0
-      · simp only [hov]
-        unfold SInv at *
-        simp only [Bool.false_eq_true, if_false]
+  split
+  · exact ⟨inv.conn, inv.init, inv.streams⟩
+  · split
+    · exact ⟨inv.conn, inv.init, inv.streams⟩
+    · refine ⟨inv.conn, rfl, ?_⟩
+      intro s hs
+      simp only [List.mem_map] at hs
+      obtain ⟨s0, hs0, rfl⟩ := hs
+      have h0 := inv.streams s0 hs0
+      split
+      · unfold SInv at *
+        simp only
         rw [h0, inv.init]
         omega
+      · exact h0
+
+theorem mem_updFirst {sid : Nat} {f : FcStream → FcStream} : ∀ {l : List FcStream} {s : FcStream},
+    l.find? (·.id = sid) = some s → ∀ y ∈ updFirst sid f l, y ∈ l ∨ y = f s := by
+  intro l
+  induction l with
+  | nil => intro s h; simp at h
+  | cons x xs ih =>
+    intro s h y hy
+    simp only [updFirst] at hy
+    by_cases hx : x.id = sid
+    · simp only [hx, if_true, List.mem_cons] at hy
+      have hs : x = s := by simpa [List.find?, hx] using h
+      rcases hy with hy | hy
+      · right; rw [hy, hs]
+      · left; simp [hy]
+    · simp only [hx, if_false, List.mem_cons] at hy
+      have h' : xs.find? (·.id = sid) = some s := by simpa [List.find?, hx] using h
+      rcases hy with hy | hy
+      · left; simp [hy]
+      · rcases ih h' y hy with h1 | h1
+        · left; simp [h1]
+        · right; exact h1
+
+theorem find?_id_mem {sid : Nat} : ∀ {l : List FcStream} {s : FcStream},
+    l.find? (·.id = sid) = some s → s ∈ l := by
+  intro l s h
+  exact List.mem_of_find?_eq_some h
 
 theorem CInv.windowUpdate {c : FcConn} (inv : CInv c) (sid inc : Nat) :
     CInv (windowUpdate c sid inc).1 := by
@@ -163,25 +187,27 @@ theorem CInv.windowUpdate {c : FcConn} (inv : CInv c) (sid inc : Nat) :
         simp only; rw [inv.conn]; omega
   · simp only [h0, if_false]
     split
-    · exact inv
+    · split
+      · exact ⟨inv.conn, inv.init, inv.streams⟩
+      · exact inv
     · rename_i s hs
+      have hmem := find?_id_mem hs
+      have hupd : ∀ (f : FcStream → FcStream), SInv (f s) →
+          CInv { c with streams := updFirst sid f c.streams } := by
+        intro f hf
+        refine ⟨inv.conn, inv.init, ?_⟩
+        intro y hy
+        rcases mem_updFirst hs y hy with h1 | h1
+        · exact inv.streams y h1
+        · rw [h1]; exact hf
+      have hsi := inv.streams s hmem
       split
       · exact inv
-      · have hmap : ∀ (f : FcStream → FcStream), (∀ x, SInv x → SInv (f x)) →
-            CInv { c with streams := c.streams.map fun x => if x.id = sid then f x else x } := by
-          intro f hf
-          refine ⟨inv.conn, inv.init, ?_⟩
-          intro y hy
-          simp only [List.mem_map] at hy
-          obtain ⟨x, hx, rfl⟩ := hy
-          split
-          · exact hf x (inv.streams x hx)
-          · exact inv.streams x hx
-        split
-        · exact hmap _ (fun x hx => by unfold SInv at *; simpa using hx)
+      · split
+        · exact hupd _ (by unfold SInv at *; simpa using hsi)
         · split
-          · exact hmap _ (fun x hx => by unfold SInv at *; simpa using hx)
-          · exact hmap _ (fun x hx => by unfold SInv at *; simp only; rw [hx]; omega)
+          · exact hupd _ (by unfold SInv at *; simpa using hsi)
+          · exact hupd _ (by unfold SInv at *; simp only; rw [hsi]; omega)
 
 theorem CInv.writePass {c : FcConn} (inv : CInv c) (budget : Nat) : CInv (writePass c budget).1 := by
   unfold LtVerif.writePass
@@ -297,5 +323,356 @@ theorem turns_complete : ∀ (bs : List Nat) (s : FcStream) (cw : Int),
           (by rw [hpe]; omega)
         refine ⟨a1, a2, ?_⟩
         rw [a3, hse, hpe]; omega
+
+theorem writePassAux_mem : ∀ (ss : List FcStream) (cswin : Int) (budget : Nat),
+    ∀ s' ∈ (writePassAux cswin budget ss).streams, ∃ s ∈ ss, ∃ cw b, s' = (streamTurn cw b s).1 := by
+  intro ss
+  induction ss with
+  | nil => intro cswin budget s' h; simp [writePassAux] at h
+  | cons s rest ih =>
+    intro cswin budget s' h
+    simp only [writePassAux, List.mem_cons] at h
+    rcases h with h | h
+    · exact ⟨s, by simp, cswin, budget, h⟩
+    · obtain ⟨s0, hs0, cw, b, e⟩ := ih _ _ s' h
+      exact ⟨s0, by simp [hs0], cw, b, e⟩
+
+
+/-- body octets still to be sent on open streams -/
+def openPending : List FcStream → Nat
+  | [] => 0
+  | s :: r => (if s.st = .open then s.pending else 0) + openPending r
+
+/-- successive write passes with the given budgets -/
+def passes : FcConn → List Nat → FcConn
+  | c, [] => c
+  | c, b :: bs => passes (writePass c b).1 bs
+
+theorem streamTurn_pos_of (s : FcStream) (cswin : Int) (budget : Nat)
+    (hopen : s.st = .open) (hp : 0 < s.pending) (hb : 2048 ≤ budget)
+    (hwin : (s.pending : Int) ≤ s.swin ∧ (s.pending : Int) ≤ cswin) :
+    0 < (streamTurn cswin budget s).2 := by
+  have hcap := perCallCap_ge s
+  obtain ⟨hn, _⟩ := streamTurn_enough s cswin budget hopen (by omega) hb hwin.1 hwin.2
+  rw [hn]; omega
+
+theorem streamTurn_open {cswin : Int} {budget : Nat} {s : FcStream}
+    (h : (streamTurn cswin budget s).1.st = .open) : s.st = .open := by
+  unfold streamTurn at h
+  by_cases a : s.st ≠ .open
+  · simp [a] at h
+  · simpa using a
+
+theorem streamTurn_openPending (cswin : Int) (budget : Nat) (s : FcStream) :
+    (if (streamTurn cswin budget s).1.st = .open then (streamTurn cswin budget s).1.pending else 0)
+      + (streamTurn cswin budget s).2 = (if s.st = .open then s.pending else 0) := by
+  unfold streamTurn
+  by_cases a : s.st ≠ .open
+  · simp [a]
+  · have a' : s.st = .open := by simpa using a
+    simp only [a', ne_eq, not_true_eq_false, if_false, if_true]
+    by_cases hp : s.pending = 0
+    · simp [hp]
+    · simp only [hp, if_false]
+      by_cases hb : budget = 0
+      · simp [hb, a']
+      · simp only [hb, if_false]
+        rcases sendAmount_le s.swin cswin s.pending (min (perCallCap s) budget) with h0 | ⟨_, _, hc, _⟩
+        · simp [h0, hp]
+        · generalize sendAmount s.swin cswin s.pending (min (perCallCap s) budget) = n at *
+          by_cases hz : s.pending - n = 0
+          · simp [hz]; omega
+          · simp [hz, a']; omega
+
+theorem writePassAux_openPending : ∀ (ss : List FcStream) (cswin : Int) (budget : Nat),
+    openPending (writePassAux cswin budget ss).streams + (writePassAux cswin budget ss).total
+      = openPending ss := by
+  intro ss
+  induction ss with
+  | nil => intro cswin budget; simp [writePassAux, openPending]
+  | cons s rest ih =>
+    intro cswin budget
+    have h1 := streamTurn_openPending cswin budget s
+    have h2 := ih (cswin - ((streamTurn cswin budget s).2 : Int)) (budget - (streamTurn cswin budget s).2)
+    simp only [writePassAux, openPending]
+    omega
+
+/-- **pass progress**: if some open stream has data pending and enough credit for it on both
+    levels, a write pass with a budget of at least 2048 octets sends something -/
+theorem writePassAux_progress : ∀ (ss : List FcStream) (cswin : Int) (budget : Nat),
+    2048 ≤ budget →
+    (∃ s ∈ ss, s.st = .open ∧ 0 < s.pending ∧ (s.pending : Int) ≤ s.swin ∧ (s.pending : Int) ≤ cswin) →
+    0 < (writePassAux cswin budget ss).total := by
+  intro ss
+  induction ss with
+  | nil => intro cswin budget _ h; obtain ⟨s, hs, _⟩ := h; simp at hs
+  | cons t rest ih =>
+    intro cswin budget hb h
+    simp only [writePassAux]
+    by_cases hn : (streamTurn cswin budget t).2 = 0
+    · obtain ⟨s, hs, ho, hp, h1, h2⟩ := h
+      simp only [List.mem_cons] at hs
+      rcases hs with hs | hs
+      · subst hs
+        have := streamTurn_pos_of s cswin budget ho hp hb ⟨h1, h2⟩
+        omega
+      · have := ih (cswin - ((streamTurn cswin budget t).2 : Int)) (budget - (streamTurn cswin budget t).2)
+          (by rw [hn]; omega) ⟨s, hs, ho, hp, h1, by rw [hn]; simpa using h2⟩
+        omega
+    · omega
+
+theorem openPending_pos {ss : List FcStream} (h : 0 < openPending ss) :
+    ∃ s ∈ ss, s.st = .open ∧ 0 < s.pending ∧ s.pending ≤ openPending ss := by
+  induction ss with
+  | nil => simp [openPending] at h
+  | cons t rest ih =>
+    simp only [openPending] at h ⊢
+    by_cases ht : t.st = .open ∧ 0 < t.pending
+    · exact ⟨t, by simp, ht.1, ht.2, by simp only [ht.1, if_true]; omega⟩
+    · have : 0 < openPending rest := by
+        by_cases a : t.st = .open
+        · have : t.pending = 0 := Nat.eq_zero_of_not_pos (fun hp => ht ⟨a, hp⟩)
+          simp [a, this] at h; exact h
+        · simp [a] at h; exact h
+      obtain ⟨s, hs, ho, hp, hle⟩ := ih this
+      exact ⟨s, by simp [hs], ho, hp, by omega⟩
+
+
+/-- credit suffices for everything still to be sent: every open stream's window covers its
+    remainder and the connection window covers the sum -/
+structure Ample (c : FcConn) : Prop where
+  noGoaway : c.goaway = none
+  streams : ∀ s ∈ c.streams, s.st = .open → (s.pending : Int) ≤ s.swin
+  conn : (openPending c.streams : Int) ≤ c.swin
+
+theorem writePass_ample {c : FcConn} (h : Ample c) (b : Nat) :
+    Ample (writePass c b).1 ∧
+    openPending (writePass c b).1.streams + (writePassAux c.swin b c.streams).total = openPending c.streams ∧
+    (writePass c b).1.sent = c.sent + (writePassAux c.swin b c.streams).total := by
+  have hg : c.goaway.isSome = false := by simp [h.noGoaway]
+  obtain ⟨h1, _, _, _⟩ := writePassAux_spec c.streams c.swin b
+  have h2 := writePassAux_openPending c.streams c.swin b
+  unfold writePass
+  simp only [hg, Bool.false_eq_true, if_false]
+  refine ⟨⟨h.noGoaway, ?_, ?_⟩, h2, trivial⟩
+  · intro s' hs' ho
+    obtain ⟨s, hs, cw, bb, e⟩ := writePassAux_mem _ _ _ s' hs'
+    subst e
+    have hso := streamTurn_open ho
+    have := h.streams s hs hso
+    obtain ⟨_, _, hsw, _, hpe, hn⟩ := streamTurn_spec cw bb s
+    rw [hsw, hpe]
+    rcases hn with hn | ⟨_, _, _, hle⟩ <;> omega
+  · have := h.conn
+    simp only
+    rw [h1]; omega
+
+/-- **Every response completes.**  Once the credit granted covers what is still to be sent
+    (per stream and on the connection), every sequence of write passes with budgets of at
+    least 2048 octets drains all open streams, however many there are and in whatever order
+    the scheduler visits them: after at most as many passes as there are octets pending
+    nothing is pending on any open stream, and exactly the pending octets were sent. -/
+theorem passes_complete : ∀ (bs : List Nat) (c : FcConn), Ample c → (∀ b ∈ bs, 2048 ≤ b) →
+    openPending c.streams ≤ bs.length →
+    openPending (passes c bs).streams = 0 ∧ (passes c bs).sent = c.sent + openPending c.streams := by
+  intro bs
+  induction bs with
+  | nil => intro c _ _ hl; simp at hl; simp [passes, hl]
+  | cons b bs ih =>
+    intro c ha hb hl
+    have hb0 : 2048 ≤ b := hb b (by simp)
+    have hbs : ∀ x ∈ bs, 2048 ≤ x := fun x hx => hb x (by simp [hx])
+    obtain ⟨ha', hsum, hsent⟩ := writePass_ample ha b
+    simp only [passes]
+    by_cases hz : openPending c.streams = 0
+    · have h0 : (writePassAux c.swin b c.streams).total = 0 := by omega
+      have := ih (writePass c b).1 ha' hbs (by omega)
+      refine ⟨this.1, ?_⟩
+      rw [this.2, hsent]; omega
+    · obtain ⟨s, hs, ho, hp, hle⟩ := openPending_pos (Nat.pos_of_ne_zero hz)
+      have hprog := writePassAux_progress c.streams c.swin b hb0
+        ⟨s, hs, ho, hp, ha.streams s hs ho, by have := ha.conn; omega⟩
+      have hlen : (b :: bs).length = bs.length + 1 := rfl
+      have := ih (writePass c b).1 ha' hbs (by omega)
+      refine ⟨this.1, ?_⟩
+      rw [this.2, hsent]; omega
+
+
+/-- a stream window fits int32 (with room), and a live stream's window is never more than
+    2^31-1 below the current initial window -/
+def SRange (initWin : Int) (s : FcStream) : Prop :=
+  s.swin ≤ int32Max ∧ -int32Max ≤ s.swin ∧ (s.live = true → initWin - int32Max ≤ s.swin)
+
+structure RInv (c : FcConn) : Prop where
+  init : 0 ≤ c.initWin ∧ c.initWin ≤ int32Max
+  conn : 0 ≤ c.swin ∧ c.swin ≤ int32Max
+  streams : ∀ s ∈ c.streams, SRange c.initWin s
+
+theorem streamTurn_range {iw cswin : Int} {budget : Nat} {s : FcStream} (hi : 0 ≤ iw ∧ iw ≤ int32Max)
+    (h : SRange iw s) : SRange iw (streamTurn cswin budget s).1 := by
+  obtain ⟨_, _, hsw, _, _, hn⟩ := streamTurn_spec cswin budget s
+  unfold SRange int32Max at *
+  obtain ⟨h1, h2, h3⟩ := h
+  rcases hn with hn | ⟨ha, _, _, _⟩
+  · refine ⟨by rw [hsw, hn]; simpa using h1, by rw [hsw, hn]; simpa using h2, ?_⟩
+    intro hl
+    rw [hsw, hn]
+    have : s.live = true := by
+      revert hl
+      unfold streamTurn FcStream.live
+      by_cases a : s.st ≠ .open
+      · simp [a]
+      · simp only [a, if_false]
+        have a' : s.st = .open := by simpa using a
+        simp [a']
+    simpa using h3 this
+  · refine ⟨by rw [hsw]; omega, by rw [hsw]; omega, ?_⟩
+    intro _; rw [hsw]; omega
+
+theorem RInv.init_holds (h : Extracted.h2ConnSendWindow = rfcInitialWindow ∧
+                             Extracted.h2PeerInitialWindow = rfcInitialWindow) : RInv FcConn.init := by
+  refine ⟨?_, ?_, ?_⟩
+  · simp [FcConn.init, h.2, rfcInitialWindow, int32Max]
+  · simp [FcConn.init, h.1, rfcInitialWindow, int32Max]
+  · intro s hs; simp [FcConn.init] at hs
+
+theorem RInv.openStream {c : FcConn} (inv : RInv c) (id body : Nat) (inc : Bool) :
+    RInv (openStream c id body inc) := by
+  refine ⟨inv.init, inv.conn, ?_⟩
+  intro s hs
+  simp only [LtVerif.openStream, List.mem_append, List.mem_singleton] at hs
+  rcases hs with hs | hs
+  · exact inv.streams s hs
+  · subst hs
+    have := inv.init
+    unfold SRange int32Max at *
+    simp only [LtVerif.openStream]
+    omega
+
+theorem RInv.writePass {c : FcConn} (inv : RInv c) (budget : Nat) : RInv (writePass c budget).1 := by
+  unfold LtVerif.writePass
+  by_cases h : c.goaway.isSome = true
+  · simp only [h, if_true]; exact inv
+  · simp only [h]
+    obtain ⟨h1, h2, _, _⟩ := writePassAux_spec c.streams c.swin budget
+    simp only [Bool.false_eq_true, if_false]
+    refine ⟨inv.init, ?_, ?_⟩
+    · have := inv.conn
+      simp only
+      rcases h2 with h2 | h2 <;> omega
+    · intro s' hs'
+      obtain ⟨s, hs, cw, b, e⟩ := writePassAux_mem _ _ _ s' hs'
+      rw [e]
+      exact streamTurn_range inv.init (inv.streams s hs)
+
+
+theorem RInv.applyInitialWindow {c : FcConn} (inv : RInv c) (v : Nat) :
+    RInv (applyInitialWindow c v).1 := by
+  unfold LtVerif.applyInitialWindow
+  split
+  · exact ⟨inv.init, inv.conn, inv.streams⟩
+  · rename_i hv
+    split
+    · exact ⟨inv.init, inv.conn, inv.streams⟩
+    · rename_i hany
+      have hi := inv.init
+      refine ⟨?_, inv.conn, ?_⟩
+      · simp only; unfold int32Max at *; omega
+      · intro s hs
+        simp only [List.mem_map] at hs
+        obtain ⟨s0, hs0, rfl⟩ := hs
+        obtain ⟨h1, h2, h3⟩ := inv.streams s0 hs0
+        have hno : ¬ (s0.live = true ∧ winOverflows s0.swin ((v : Int) - c.initWin) = true) := by
+          intro hh
+          apply hany
+          simp only [List.any_eq_true, Bool.and_eq_true]
+          exact ⟨s0, hs0, hh⟩
+        by_cases hl : s0.live = true
+        · simp only [hl, if_true]
+          have hov : ¬ winOverflows s0.swin ((v : Int) - c.initWin) = true := fun h => hno ⟨hl, h⟩
+          have h3' := h3 hl
+          unfold winOverflows at hov
+          unfold SRange int32Max int32Min at *
+          have hlive : ({ s0 with swin := s0.swin + ((v : Int) - c.initWin),
+                                   credit := s0.credit + ((v : Int) - c.clientInit) } : FcStream).live = true := by
+            simpa [FcStream.live] using hl
+          simp only
+          by_cases hd : (v : Int) - c.initWin ≥ 0
+          · simp only [hd, if_true, decide_eq_true_eq] at hov
+            refine ⟨by omega, by omega, fun _ => by omega⟩
+          · simp only [hd, if_false, decide_eq_true_eq] at hov
+            refine ⟨by omega, by omega, fun _ => by omega⟩
+        · simp only [hl]
+          unfold SRange at *
+          refine ⟨h1, h2, fun h => absurd h hl⟩
+
+theorem RInv.windowUpdate {c : FcConn} (inv : RInv c) (sid inc : Nat) :
+    RInv (windowUpdate c sid inc).1 := by
+  unfold LtVerif.windowUpdate
+  by_cases h0 : sid = 0
+  · simp only [h0, if_true]
+    split
+    · exact ⟨inv.init, inv.conn, inv.streams⟩
+    · split
+      · exact ⟨inv.init, inv.conn, inv.streams⟩
+      · rename_i hov
+        have := inv.conn
+        refine ⟨inv.init, ?_, inv.streams⟩
+        simp only; unfold int32Max at *; omega
+  · simp only [h0, if_false]
+    split
+    · split
+      · exact ⟨inv.init, inv.conn, inv.streams⟩
+      · exact inv
+    · rename_i s hs
+      have hmem := List.mem_of_find?_eq_some hs
+      have hupd : ∀ (f : FcStream → FcStream), SRange c.initWin (f s) →
+          RInv { c with streams := updFirst sid f c.streams } := by
+        intro f hf
+        refine ⟨inv.init, inv.conn, ?_⟩
+        intro y hy
+        rcases mem_updFirst hs y hy with h1 | h1
+        · exact inv.streams y h1
+        · rw [h1]; exact hf
+      obtain ⟨h1, h2, h3⟩ := inv.streams s hmem
+      split
+      · exact inv
+      · rename_i hst
+        split
+        · exact hupd _ ⟨h1, h2, fun h => by simp [FcStream.live] at h⟩
+        · split
+          · exact hupd _ ⟨h1, h2, fun h => by simp [FcStream.live] at h⟩
+          · rename_i hov
+            have hl : s.live = true := by
+              unfold FcStream.live
+              cases hs' : s.st <;> simp_all
+            have h3' := h3 hl
+            refine hupd _ ?_
+            unfold SRange int32Max at *
+            refine ⟨by simp only; omega, by simp only; omega, fun _ => by simp only; omega⟩
+
+theorem RInv.step {c : FcConn} (inv : RInv c) (e : FcEv) : RInv (fcStep c e).1 := by
+  cases e with
+  | openStream id body inc =>
+    simp only [fcStep]; split
+    · exact inv
+    · exact inv.openStream id body inc
+  | settingsInitialWindow v =>
+    simp only [fcStep]; split
+    · exact inv
+    · exact inv.applyInitialWindow v
+  | windowUpdate sid inc =>
+    simp only [fcStep]; split
+    · exact inv
+    · exact inv.windowUpdate sid inc
+  | write budget => simp only [fcStep]; exact inv.writePass budget
+
+theorem RInv.run {c : FcConn} (inv : RInv c) (es : List FcEv) : RInv (fcRun c es).1 := by
+  induction es generalizing c with
+  | nil => simpa [fcRun] using inv
+  | cons e rest ih =>
+    simp only [fcRun]
+    exact ih (inv.step e)
+
 
 end LtVerif
